@@ -132,6 +132,22 @@ def oracle(case, line):
     else:
         if off != size or size >= 2**63:
             bad.append(("sizes", "file sizes do not sum to the total size"))
+    # declared file lengths: accepted => every length >= 0, their TRUE sum = size_bytes <= 2^63-1
+    kindz = case.partition(" ")[0]
+    if kindz in ("T", "B") and not meta:
+        tz = case_tree(case)
+        infoz = G.mget(tz, "info") if G.is_map(tz) else None
+        if G.is_map(infoz):
+            if multi:
+                fz = G.mget(infoz, "files")
+                decl = [G.mget(f, "length") if G.is_map(f) else None for f in fz] if isinstance(fz, list) else [None]
+            else:
+                decl = [G.mget(infoz, "length")]
+            if any((not isinstance(x, int)) or x < 0 for x in decl):
+                bad.append(("sizes-declared", "accepted although a declared file length is missing, not an integer or negative"))
+            elif sum(decl) != size or sum(decl) > 2**63 - 1 or [f["size"] for f in files] != decl:
+                bad.append(("sizes-declared", "declared file lengths %r sum to %d but the download has size_bytes %d "
+                            "(sum must equal the total and stay <= 2^63-1: 64-bit wrap of the total)" % (decl[:4], sum(decl), size)))
     # declared piece length = chunk size actually used (for torrents; meta downloads use 1)
     kind0 = case.partition(" ")[0]
     if kind0 in ("T", "B") and not meta:
